@@ -29,12 +29,26 @@ def build(args):
     for cls in (GooFitChain, GooFitPyChain):
         if "cartesian" in cls.__dict__:
             delattr(cls, "cartesian")
+    # the text arrives as `text=`, or as a file named by keyword (str) or by position (pathlib.Path)
+    import tempfile
+    from pathlib import Path
+    from .tlc import WORK
+    form = cid % 4 if isinstance(cid, int) else 0
+    tmpd = None
+    if form >= 2:
+        WORK.mkdir(exist_ok=True)
+        tmpd = tempfile.TemporaryDirectory(prefix="c17f-", dir=str(WORK))
+        fp = Path(tmpd.name) / "options.txt"
+        fp.write_text(text, encoding="utf_8")
+        how = (lambda c: c.read_ampgen(filename=str(fp))) if form == 2 else (lambda c: c.read_ampgen(fp))
+    else:
+        how = lambda c: c.read_ampgen(text=text)       # noqa: E731
     try:
         if reader == "base":
-            lines, pars, consts, states = AmplitudeChain.read_ampgen(text=text)
+            lines, pars, consts, states = how(AmplitudeChain)
         else:
             cls = GooFitChain if reader == "cpp" else GooFitPyChain
-            lines, states = cls.read_ampgen(text=text)
+            lines, states = how(cls)
             pars, consts = cls.pars, cls.consts
         ids = {v: k for k, v in {**ampio.FINALS, **{n: i for n, (i, _, _) in ampio.RES.items()}}.items()}
         obs["event"] = [cz.rname(ids.get(int(p.pdgid), "?")) for p in states]
@@ -60,6 +74,8 @@ def build(args):
         obs["raised"] = repr(e)[:300]
     finally:
         AmplitudeChain.cartesian = False
+        if tmpd is not None:
+            tmpd.cleanup()
     return {"prop": PROP, "cid": cid, "file": {k: v for k, v in f.items() if k != "extra"}, "obs": obs, "text": text, "reader": reader}
 
 
